@@ -210,6 +210,20 @@ pub fn to_string_displaced(
     stringify(node, Some(context), displace_data, false, locale, language)
 }
 
+/// Binding strength of the operator at the root of `node` (see the grammar in
+/// `parser/mod.rs`); operands and calls bind strongest.
+fn operator_level(node: &Node) -> u8 {
+    match node {
+        Node::CompareKind { .. } => 1,
+        Node::OpConcatenateKind { .. } => 2,
+        Node::OpSumKind { .. } => 3,
+        Node::OpProductKind { .. } => 4,
+        Node::OpPowerKind { .. } => 5,
+        Node::UnaryKind { .. } => 6,
+        _ => 7,
+    }
+}
+
 /// `stringify_reference` reports a reference that no longer exists as the
 /// English `#REF!`; a formula shown (and re-entered) in another language needs
 /// the error name of that language.
@@ -694,48 +708,58 @@ fn stringify(
                 language
             )
         ),
-        OpConcatenateKind { left, right } => format!(
-            "{}&{}",
-            stringify(
+        OpConcatenateKind { left, right } => {
+            // a comparison binds weaker than `&`
+            let mut left_str = stringify(
                 left,
                 context,
                 displace_data,
                 export_to_excel,
                 locale,
-                language
-            ),
-            stringify(
+                language,
+            );
+            if operator_level(left) < 2 {
+                left_str = format!("({left_str})");
+            }
+            let mut right_str = stringify(
                 right,
                 context,
                 displace_data,
                 export_to_excel,
                 locale,
-                language
-            )
-        ),
-        CompareKind { kind, left, right } => format!(
-            "{}{}{}",
-            stringify(
+                language,
+            );
+            if operator_level(right) < 2 {
+                right_str = format!("({right_str})");
+            }
+            format!("{left_str}&{right_str}")
+        }
+        CompareKind { kind, left, right } => {
+            let left_str = stringify(
                 left,
                 context,
                 displace_data,
                 export_to_excel,
                 locale,
-                language
-            ),
-            kind,
-            stringify(
+                language,
+            );
+            let mut right_str = stringify(
                 right,
                 context,
                 displace_data,
                 export_to_excel,
                 locale,
-                language
-            )
-        ),
+                language,
+            );
+            // comparisons associate to the left
+            if operator_level(right) <= 1 {
+                right_str = format!("({right_str})");
+            }
+            format!("{left_str}{kind}{right_str}")
+        }
         OpSumKind { kind, left, right } => {
             // CompareKind has lower precedence than +/-, so wrap it to preserve semantics
-            let left_str = if matches!(**left, CompareKind { .. }) {
+            let left_str = if matches!(**left, CompareKind { .. } | OpConcatenateKind { .. }) {
                 format!(
                     "({})",
                     stringify(
@@ -759,7 +783,7 @@ fn stringify(
             };
             // if kind is minus then we need parentheses in the right side if they are OpSumKind or CompareKind
             let right_str = if (matches!(kind, OpSum::Minus) && matches!(**right, OpSumKind { .. }))
-                | matches!(**right, CompareKind { .. })
+                | matches!(**right, CompareKind { .. } | OpConcatenateKind { .. })
             {
                 format!(
                     "({})",
@@ -787,7 +811,7 @@ fn stringify(
         }
         OpProductKind { kind, left, right } => {
             let x = match **left {
-                OpSumKind { .. } | CompareKind { .. } => format!(
+                OpSumKind { .. } | CompareKind { .. } | OpConcatenateKind { .. } => format!(
                     "({})",
                     stringify(
                         left,
@@ -808,7 +832,10 @@ fn stringify(
                 ),
             };
             let y = match **right {
-                OpSumKind { .. } | CompareKind { .. } | OpProductKind { .. } => format!(
+                OpSumKind { .. }
+                | CompareKind { .. }
+                | OpConcatenateKind { .. }
+                | OpProductKind { .. } => format!(
                     "({})",
                     stringify(
                         right,
@@ -995,7 +1022,6 @@ fn stringify(
                     | WrongReferenceKind { .. }
                     | WrongRangeKind { .. }
                     | OpRangeKind { .. }
-                    | OpConcatenateKind { .. }
                     | OpProductKind { .. }
                     | FunctionKind { .. }
                     | NamedFunctionKind { .. }
@@ -1007,12 +1033,15 @@ fn stringify(
                     | NamedVariableKind { .. }
                     | ImplicitIntersection { .. }
                     | SpillRangeOperator { .. }
-                    | CompareKind { .. }
                     | ErrorKind(_)
                     | ParseErrorKind { .. }
                     | EmptyArgKind => false,
 
-                    OpPowerKind { .. } | OpSumKind { .. } | UnaryKind { .. } => true,
+                    OpPowerKind { .. }
+                    | OpSumKind { .. }
+                    | UnaryKind { .. }
+                    | OpConcatenateKind { .. }
+                    | CompareKind { .. } => true,
                 };
                 if needs_parentheses {
                     format!(
@@ -1041,17 +1070,20 @@ fn stringify(
                 }
             }
             OpUnary::Percentage => {
-                format!(
-                    "{}%",
-                    stringify(
-                        right,
-                        context,
-                        displace_data,
-                        export_to_excel,
-                        locale,
-                        language
-                    )
-                )
+                let operand = stringify(
+                    right,
+                    context,
+                    displace_data,
+                    export_to_excel,
+                    locale,
+                    language,
+                );
+                // `%` binds stronger than every binary operator
+                if operator_level(right) < 6 {
+                    format!("({operand})%")
+                } else {
+                    format!("{operand}%")
+                }
             }
         },
         ErrorKind(kind) => kind.to_localized_error_string(language),
